@@ -795,3 +795,56 @@ def translate_info_schema_decision():
 
 def lean_string(s):
     return '"' + s.replace("\\", "\\\\").replace('"', '\\"') + '"'
+
+
+# ----------------------------------------------------------------------------- like_to_regex of schema.py
+def translate_like_to_regex():
+    """schema.like_to_regex: the per-character loop → Lean `List Char → List Mimic.Like.A`"""
+    from mysql_mimic import schema as S
+    tree = ast.parse(inspect.getsource(S))
+    f = [n for n in tree.body if isinstance(n, ast.FunctionDef) and n.name == "like_to_regex"]
+    if not f:
+        raise Untranslatable("like_to_regex not found")
+    f = f[0]
+    body = [s for s in f.body if not (isinstance(s, ast.Expr) and isinstance(s.value, ast.Constant))]
+    if not (len(body) == 3 and isinstance(body[0], ast.Assign) and ast.unparse(body[0]) == "parts = []" and isinstance(body[1], ast.For)
+            and isinstance(body[2], ast.Return)):
+        raise Untranslatable("like_to_regex: expected `parts = []`, a for loop and a return")
+    loop = body[1]
+    if not (isinstance(loop.target, ast.Name) and ast.unparse(loop.iter) == f.args.args[0].arg and len(loop.body) == 1 and isinstance(loop.body[0], ast.If)):
+        raise Untranslatable("like_to_regex: loop is not `for char in like: if ...`")
+    ch = loop.target.id
+
+    def atom(call):
+        u = ast.unparse(call)
+        if u == "parts.append('.*')":
+            return ".dotStar"
+        if u == "parts.append('.')":
+            return ".dot"
+        if u == "parts.append(re.escape(%s))" % ch:
+            return "(.chr %s)" % ch
+        raise Untranslatable("like_to_regex appends " + u)
+
+    def branch(node):
+        if isinstance(node, ast.If):
+            t = node.test
+            if not (isinstance(t, ast.Compare) and isinstance(t.left, ast.Name) and t.left.id == ch and len(t.ops) == 1 and isinstance(t.ops[0], ast.Eq)
+                    and isinstance(t.comparators[0], ast.Constant) and isinstance(t.comparators[0].value, str) and len(t.comparators[0].value) == 1):
+                raise Untranslatable("like_to_regex condition " + ast.unparse(t))
+            if len(node.body) != 1 or len(node.orelse) != 1:
+                raise Untranslatable("like_to_regex branch shape")
+            c = t.comparators[0].value
+            return "if %s = '%s' then %s else %s" % (ch, c, atom(node.body[0].value), branch(node.orelse[0]))
+        if isinstance(node, ast.Expr):
+            return atom(node.value)
+        raise Untranslatable("like_to_regex branch " + ast.dump(node)[:100])
+    ret = ast.unparse(body[2].value)
+    if ret != "re.compile(''.join(parts), flags=re.DOTALL)":
+        raise Untranslatable("like_to_regex returns " + ret)
+    return "\n".join([
+        "-- GENERATED by harness/extract.py (harness/pytrans.py) from /repo/mysql_mimic/schema.py — do not edit",
+        "import Mimic.Like", "namespace Mimic.Extracted.LikeCode", "open Mimic.Like", "",
+        "/-- `like_to_regex`: the atoms appended for each character of the pattern (the pattern is compiled with DOTALL) -/",
+        "def like_to_regex (like : List Char) : List A :=",
+        "  like.map (fun %s => %s)" % (ch, branch(loop.body[0])),
+        "", "end Mimic.Extracted.LikeCode"]) + "\n"
